@@ -3,10 +3,10 @@ import SimVerif.Model.Nms
 namespace SimVerif.Driver.NmsD
 open SimVerif.Wire SimVerif.Nms SimVerif.Driver
 
-/-- request: `n (aspect height score|- xc yc angle|-)*n thr sthr|- => covbits(n*n of 0/1, row a col b = cov a b) kept(list) again(list)` -/
+/-- request: `n (aspect height score|- xc yc angle|- stale)*n thr sthr|- => covbits(n*n of 0/1, row a col b = cov a b) kept(list) again(list)` -/
 def parseBoxes : Nat → Nat → List String → Option (List (Box Nat) × List String)
   | 0, _, ts => some ([], ts)
-  | n+1, i, a :: h :: s :: _xc :: _yc :: _ang :: ts => do
+  | n+1, i, a :: h :: s :: _xc :: _yc :: _ang :: _stale :: ts => do
     let a ← rat? a
     let h ← rat? h
     let s ← optTok rat? s
